@@ -195,6 +195,57 @@ def run(ctx):
                                           {**key, 'party': pid, 'output': k, 'got': v, 'want': exp[k]})
             finally:
                 sim.close()
+    # ---- a party that dies during the opening handshake (pid + PRSS keys): survivors that nevertheless get past
+    #      start() must still only output correct values (operations that do not need the dead party)
+    m, t = 4, 1
+    sim = Sim(m, t, seed=11)
+    try:
+        sim.start()
+        hs = {c: sum(len(sim.net.stream[(c, q)]) for q in range(m) if q != c) for c in range(m)}
+    finally:
+        sim.close()
+    for c in (0, 1):
+        cuts = sorted({x for x in list(range(max(1, hs[c] - 6), hs[c])) + [hs[c] // 2, 2, 17, 18, 19, 33, 34, 35] if 0 < x < hs[c]})
+        for cut in (cuts if ctx.tier == 'thorough' else cuts[-8:] + cuts[:3]):
+            sim = Sim(m, t, seed=11)
+            try:
+                sim.net.cut[c] = cut
+                st = sim.run(lambda mpc, mods, i: mpc.start(), Fifo(), idle_limit=150)
+                started = [i for i in range(m) if st[i] is None and i != c]
+                res2 = {}
+
+                async def prog2(mpc, mods, pid):
+                    if pid not in started:
+                        return 'not-started'
+                    secint = mpc.SecInt(16)
+                    out = res2.setdefault(pid, {})
+                    x = mpc.input(secint(5), senders=1)      # dealt by a survivor
+                    r = mpc._random(secint)                   # PRSS: needs consistent keys
+                    out['rand'] = await mpc.output(r, receivers=[2, 3])          # both receivers must agree
+                    out['seven'] = await mpc.output(x + 2 + (r - r), receivers=[2, 3])
+                    out['zero'] = await mpc.is_zero_public(x - 5)                # completes only where 2t predecessors live
+                    return dict(out)
+                if started:
+                    sim.run(prog2, Fifo(), idle_limit=150)
+                nruns += 1
+                key = {'m': m, 't': t, 'crashed': c, 'cut': cut, 'of': hs[c], 'mode': 'handshake', 'started': started}
+                ctx.case(key, nontrivial=True, kind='handshake crash')
+                rands = {pid: out['rand'] for pid, out in res2.items() if out.get('rand') is not None}
+                if len(set(rands.values())) > 1:
+                    ctx.violation('survivors-disagree-after-handshake-crash m=%d t=%d' % (m, t), {**key, 'outputs': str(rands)})
+                for pid, out in res2.items():
+                    if 'zero' in out:
+                        ncompleted += 1
+                        if out['zero'] is not True:
+                            ctx.violation('survivor-output-wrong-after-handshake-crash m=%d t=%d' % (m, t),
+                                          {**key, 'party': pid, 'output': 'is_zero_public(r - r)', 'got': str(out['zero']), 'want': True})
+                    if out.get('seven') is not None:
+                        ncompleted += 1
+                        if out['seven'] != 7:
+                            ctx.violation('survivor-output-wrong-after-handshake-crash m=%d t=%d' % (m, t),
+                                          {**key, 'party': pid, 'output': 'output(x + 2 + r - r), x = 5', 'got': out['seven'], 'want': 7})
+            finally:
+                sim.close()
     ctx.extra['crash_runs'] = nruns
     ctx.extra['survivor_outputs_completed_and_checked'] = ncompleted
     ctx.log('%d crash runs, %d completed survivor outputs checked' % (nruns, ncompleted))
